@@ -545,6 +545,50 @@ def rule_decoders(model):
                               'first keeps its mark as a stray character; '
                               'each bytes value must be decoded on its own',
                               node=d, ctx=fi)
+    # ... with an encoding that does not depend on the bytes themselves:
+    # the codec is the template's (or the fixed default), never one chosen
+    # by looking at the value (BOM sniffing, trial decoding)
+    for fi in model.all_funcs():
+        if fi.module.short not in ('html_quote', '_DocumentTemplate',
+                                   'DT_In', 'DT_Var', 'ustr', 'DT_Util'):
+            continue
+        for d in own_nodes(fi.node):
+            if not (isinstance(d, ast.Call) and isinstance(
+                    d.func, ast.Attribute) and d.func.attr == 'decode'
+                    and isinstance(d.func.value, ast.Name)):
+                continue
+            v = d.func.value.id
+            enc = d.args[0] if d.args else next(
+                (k.value for k in d.keywords if k.arg == 'encoding'), None)
+            if enc is None:
+                continue
+            exprs = [enc]
+            if isinstance(enc, ast.Name):
+                exprs += [x for x in model.local_defs(fi, enc.id)
+                          if isinstance(x, ast.AST)]
+                # a loop variable over candidate codecs: trial decoding
+                if any(isinstance(x, tuple) and x[0] == 'iter'
+                       for x in model.local_defs(fi, enc.id)):
+                    exprs.append(ast.Call(
+                        func=ast.Name(id='candidates', ctx=ast.Load()),
+                        args=[ast.Name(id=v, ctx=ast.Load())],
+                        keywords=[]))
+            sniff = [c for e in exprs for c in ast.walk(e)
+                     if isinstance(c, ast.Call) and any(
+                         isinstance(a, ast.Name) and a.id == v
+                         for a in ast.walk(c))]
+            r.instance(fi.where, d, 'codec fixed by the template'
+                       if not sniff else 'CODEC CHOSEN FROM THE DATA')
+            if sniff:
+                r.finding(fi.where, d, f'the codec `{norm(enc)}` used to '
+                          f'decode `{v}` is chosen by looking at the bytes '
+                          'themselves: it outranks the encoding of the '
+                          'template, so bytes that merely look like '
+                          'another encoding (a text starting with the two '
+                          'Latin-1 characters of a BOM, valid UTF-8 in a '
+                          'Latin-1 template) are decoded differently from '
+                          'every other insertion of the same value',
+                          node=d, ctx=fi)
     # join_unicode: only bytes elements are decoded, order kept
     # (on the view with new helpers inlined: a helper that decodes the
     # list is judged as part of join_unicode)
